@@ -5,14 +5,14 @@ EXPLANATION = ("CrossHair symbolic execution (z3) of the real ServerMap query me
                "every feasible descriptor combination is one solver-decided path (path-per-input, small bounds).")
 ASSUMPTIONS = [
     "versions are (seqnum, root-hash rank, k) with distinct concrete root hashes per rank; one k per run (equal (seqnum, root hash) implies equal k: same signed prefix)",
-    "a (server, shnum) slot holds one version; each version's shares sit on its own server plus an optional duplicate of share 0 elsewhere",
-    "ServermapUpdater._check_for_done (the MODE_READ decision to keep querying while a newer unrecoverable version is in sight) is NOT decided here",
+    "a (server, shnum) slot holds one version; each version's distinct shares sit on its own server plus d (0..dmax) further COPIES of share 0 on other servers",
+    "ServermapUpdater._check_for_done: only its MODE_READ decision is decided (read_keeps_querying), one step on a fake updater; queries, responses and the other modes are not",
 ]
 
 
-def _b(nv, seq_max, rank_max, k, c_lo, c_hi, dups=True, s0=None):
-    b = {"nv": nv, "seq_max": seq_max, "rank_max": rank_max, "k": k, "c_lo": c_lo, "c_hi": c_hi, "dups": dups, "s0": s0}
-    b["_label"] = "%dv-seq%d-rank%d-k%d-c%+d..%+d%s%s" % (nv, seq_max, rank_max + 1, k, c_lo, c_hi, "-dup" if dups else "", "" if s0 is None else "-s0_%d" % s0)
+def _b(nv, seq_max, rank_max, k, c_lo, c_hi, dups=True, s0=None, dmax=1):
+    b = {"nv": nv, "seq_max": seq_max, "rank_max": rank_max, "k": k, "c_lo": c_lo, "c_hi": c_hi, "dups": dups, "s0": s0, "dmax": dmax}
+    b["_label"] = "%dv-seq%d-rank%d-k%d-c%+d..%+d%s%s" % (nv, seq_max, rank_max + 1, k, c_lo, c_hi, ("-dup%d" % dmax) if dups else "", "" if s0 is None else "-s0_%d" % s0)
     return b
 
 
@@ -20,6 +20,7 @@ OBLIGATIONS = [
     chx("servermap_versions", "C11_h", "h_servermap", timeout={"quick": 150, "thorough": 1500},
         cases={"quick": [_b(2, 3, 1, 2, -1, 0, s0=s) for s in (1, 2, 3)] + [_b(3, 2, 1, 1, -1, 0, dups=False, s0=s) for s in (1, 2)],
                "thorough": [_b(2, 3, 2, k, -1, 1, s0=s) for k in (1, 2, 3) for s in (1, 2, 3)]
+               + [_b(2, 2, 1, 3, -1, 0, s0=s, dmax=2) for s in (1, 2)]
                + [_b(3, 3, 1, k, -1, 0, dups=False, s0=s) for k in (1, 2) for s in (1, 2, 3)]},
         desc="real ServerMap (add_new_share) with <= 3 versions (seqnum 1..3, root-hash rank, k, distinct share count around k, duplicate "
              "copies): shares_available counts DISTINCT share numbers; recoverable <=> distinct >= k; best_recoverable_version = the "
@@ -35,4 +36,14 @@ OBLIGATIONS = [
              "REPAIR) or with no servermap (initial publish): the new sequence number is strictly above every version in the map, "
              "recoverable or not, and equals highest+1 (1 for the initial publish)",
         outside="the rest of publish (C47); that the survey saw every existing version (C10/C11 updater logic)"),
+    chx("read_keeps_querying", "C11_h", "h_read_keeps_querying", timeout={"quick": 150, "thorough": 1500},
+        cases={"quick": [_b(2, 2, 0, 2, -1, 0, dups=True), dict(_b(1, 2, 0, 2, -1, 0, dups=True), gates=True, _label="1v-gates")],
+               "thorough": [_b(2, 3, 1, 2, -1, 0, dups=True, s0=s) for s in (1, 2, 3)] + [_b(2, 2, 0, 3, -1, 0, dups=True, dmax=2)]
+               + [dict(_b(2, 2, 0, 2, -1, 0, dups=True), gates=True, _label="2v-gates")]},
+        desc="ServermapUpdater._check_for_done in MODE_READ, one decision on a fake updater over a real ServerMap (<= 2 versions, copies of a "
+             "share on several servers), with symbolic 'queries outstanding', 'extra servers left', 'must-query pending', completed/planned "
+             "query counts: it finishes only if nobody is left to ask, or a recoverable version was seen AND no unrecoverable version with a "
+             "higher seqnum than every recoverable one is in sight AND the planned number of servers answered; otherwise it asks more "
+             "servers (recoverability counts DISTINCT share numbers); it waits while must-query servers are pending",
+        outside="the other modes; _send_more_queries itself and the order in which servers are asked; that the loop terminates"),
 ]
